@@ -38,3 +38,9 @@ M("c17_gate_sanity_authenticated", ["C17"], "reach_allow", tier="quick",
   desc="polarity/vacuity twin: with the connection Authenticated the dispatch (process_normal_command, handle_exec, pub/sub handlers) IS reachable in process_frame - so the gate query is not vacuous and the atom polarity is right. Expected to list non-allow-listed calls; passes when the must_reach set is reached.",
   fn=r"::process_frame$", assume=["PASSWORD_SET", "AUTHENTICATED"], allow=[r".*"],
   must_reach=[r"^Server::process_normal_command$", r"^Server::handle_exec$", r"^Server::handle_subscribe$"])
+
+M("c17_auth_exact_password", ["C17"], "guarded", tier="quick",
+  desc="Server::handle_auth: the connection's state is set to Authenticated (closure passed to with_connection) ONLY on executions on which the String equality of the supplied password with the configured one returned true - no other comparison (prefix, folded XOR over zip, case-insensitive...) can authenticate",
+  assumptions=["byte equality of <String as PartialEq>::eq is the standard library's and is trusted; the supplied bytes reach it through String::from_utf8 (checked structurally: the only String built from the request)"],
+  fn=r"::handle_auth$", target=r"with_connection", target_closure_stmt=r"= (network::connection::)?ConnectionState::Authenticated$",
+  target_name="state = Authenticated", guard=r"<(std::string::)?String as PartialEq>::eq$", guard_name="String == String on the password")
